@@ -89,7 +89,14 @@ def edit_case(draw, fixture=None, focus=None):
     elif focus == "MetaUser":
         from checks import c15
 
-        src = {"src": "meta", "spec": draw(c15.meta_spec(1, in_project=False))}
+        ms = draw(c15.meta_spec(1, in_project=False))
+        if ms["payload"]["mappings"] and draw(st.booleans()):
+            # give one mapped, exposed controller a plain one-word label (its alias is then usable)
+            i = draw(st.sampled_from(sorted({m_[0] for m_ in ms["payload"]["mappings"] if m_[0] < ms["payload"]["count"]}) or [0]))
+            word = draw(st.sampled_from(["cutoff", "res", "mix", "vol", "depth", "rate"]))
+            ms["payload"]["labels"] = [l_ for l_ in ms["payload"]["labels"] if l_[0] != i and l_[1] != word] + [[i, word]]
+            ms["labels_beyond_count"] = [l_ for l_ in ms.get("labels_beyond_count", []) if l_[0] != i]
+        src = {"src": "meta", "spec": ms}
         obj = c05.load(base_bytes(src))
         users = edits.user_value_targets(obj.module)
         if not users:
